@@ -20,6 +20,10 @@ Inductive ccase :=
      the committed timestamp, List calls of one RunOnce of the syncer's cleaner *)
 | CSyncer (receive_only cfg_enabled store_ok : bool) (o_stores : N) (o_committed : bool) (o_lists : N).
 
+(* names in case files: a head (enough bytes of the real name to decide the prefix test) followed by
+   0xff and the index of the name in the case *)
+Definition nm (h : bytes) (i : N) : bytes := h ++ [255%N; i].
+
 Fixpoint lbeqb (a b : list bytes) : bool :=
   match a, b with
   | [], [] => true
@@ -45,7 +49,7 @@ Definition dels_of (log : list bcall) : list (name * bool) :=
   flat_map (fun c => match c with BDelete n ok => [(n, ok)] | _ => [] end) log.
 
 Definition log_matches (log : list bcall) (o_list : list bytes) (o_del : list (name * bool)) : bool :=
-  lbeqb (listed log) o_list && dels_eqb (sort_dels (dels_of log)) o_del.
+  lbeqb (listed log) o_list && dels_eqb (sort_dels (dels_of log)) (sort_dels o_del).
 
 Fixpoint probes_ok (committed : cmap) (o : list (inst * Z)) : bool :=
   match o with
@@ -146,7 +150,8 @@ Fixpoint br_f2 (now rem : Z) (marks : list inst) (l : list cand) : list N :=
 Definition br_stale (committed : cmap) (c : cand) : N :=
   match get committed (c_inst c) with
   | None => 20
-  | Some t => br_dur 21 t (c_ts c)      (* 21 committed older: keep; 22 equal; 23 newer by 1; 24 newer *)
+  | Some t => if (t =? c_ts c - 1)%Z then 35   (* committed one ns older than the snapshot: keep *)
+              else br_dur 21 t (c_ts c)     (* 21 committed older: keep; 22 equal; 23 newer by 1; 24 newer *)
   end.
 
 Fixpoint has_tie (l : list cand) : bool :=
@@ -199,7 +204,7 @@ Definition cbranches (c : ccase) : list N :=
   end.
 
 Definition cbranches_all : list N :=
-  [1;2;3;4;5;6;7;10;11;12;13;14;15;16;17;18;19;20;21;22;23;24;25;26;27;28;29;30;31;32;33;34;40;41;42;43].
+  [1;2;3;4;5;6;7;10;11;12;13;14;15;16;17;18;19;20;21;22;23;24;25;26;27;28;29;30;31;32;33;34;35;40;41;42;43].
 
 Definition mismatches (l : list ccase) : list N := mism ccheck l.
 Definition coverage (l : list ccase) : list N := fold_left (fun acc c => ins_all (cbranches c) acc) l [].
